@@ -114,6 +114,15 @@ Theorem C34_server_vhost_addresses_host_bucket : forall b p,
 Proof. exact bucket_from_path_vhost. Qed.
 Print Assumptions C34_server_vhost_addresses_host_bucket.
 
+(* ... and that path is exactly the one C33's model of the virtual-host rewrite (current code) produces for
+   Host = bucket.api[:port]: the two models agree on what the CORS middleware is handed *)
+From Verif Require CorsVHostBridge VHost VHostProofs.
+Theorem C34_server_vhost_path_is_c33_rewrite : forall api bucket port path,
+  bucket <> [] -> ~ In ":"%byte bucket -> ~ In ":"%byte api -> VHostProofs.port_ok port ->
+  VHost.vhost_rewrite true api ((bucket ++ "."%byte :: api) ++ port) path = vhost_path bucket path.
+Proof. exact CorsVHostBridge.vhost_path_is_vhost_rewrite. Qed.
+Print Assumptions C34_server_vhost_path_is_c33_rewrite.
+
 (* non-vacuity: configuration cached by a first request, bucket deleted and re-created, same request again *)
 Definition ex_get (o : bytes) : request := {| q_method := B"GET"; q_origin := o; q_acrm := []; q_acrh := [] |}.
 Example C34_ex_server_history :
